@@ -197,4 +197,20 @@ META['C18'] = {
   'level_text': 'Proved for every perfect tree of any height at any base and every non-empty index-sorted leaf list (duplicates allowed) whose proofs are sibling paths of that tree: computeMultiproof does not panic, yields exactly multiproofSize hashes, and expandMultiproof from the leaf hashes alone restores every individual proof bit-for-bit, recomputes the root and consumes exactly the multiproof. Proved for outlines over arbitrary transaction/hash types: the outline has the block\'s hashes whatever is omitted (same commitment and ID), Complete reports exactly omitted-and-not-offered, and any pool containing the omitted transactions (any order/extras) restores exactly the block, up to an exhibited hash collision. The implementation is tied by recomputing multiproofs, leaf counts, sizes, restored proofs and completion results on generated chains. Partial: cross-tree grouping and numLeaves inference are correspondence only.',
 }
 
+META['C17'] = {
+  'rule': ('(a) 150 (thorough 6000) sequences NewContract -> 0..13 revision constructors (append incl. maximal batches, free, sector roots, fund/replenish with exact-boundary amounts: everything / one more / one less) -> renew | refresh partial | refresh full (allowance at the boundaries of the remaining renter value) -> further revisions -> second renewal, under random price tables incl. zero and near-maximal prices: '
+           'every call is recomputed by the extracted model (all numeric contract fields, the usage breakdown, error class, and where the implementation panics), the cost functions too; '
+           '100 (3000) consensus-valid but unreachable contracts (host value below total collateral) check that model and code panic in the same places; '
+           'Go-side oracle: totals kept, renter charged exactly RenterCost, exactly RiskedCollateral risked, total collateral untouched, exact split into final outputs + rollover, rollover <= new contract cost, renter cost + host cost + rollover = new contract + tax + fee; '
+           '(b) 300 (20000) v1-era formations/renewals through rhp/v2 and rhp/v3 builders: payout = outputs + FileContractTax(payout), valid sum = missed sum, taxAdjustedPayout recomputed by the model; PayByContract boundaries; '
+           '(c) 6 (120) real chains: NewContract / revisions / renewals / refreshes signed with real keys and funded with exactly renter cost + host cost are submitted to consensus.ValidateV2Transaction and mined'),
+  'trusted_base': [KERNEL, EXTRACT, HARNESS,
+                   'the consensus rules the theorems refer to are those of the ledger model (Ledger/Validate.v validate_contract / validate_revision / validate_renewal), tied to consensus/validation.go by the C01-C10 correspondence',
+                   'Currency arithmetic as checked arithmetic over Z with explicit panics (exactness of the 128-bit implementation is C15)'],
+  'assumptions': ['physical guards stated in the theorems: appended sectors keep capacity below 2^64, freed sectors exist (the request validation guarantees it), proof height + 144 < 2^64, the funds involved fit a Currency (total + tax + fee < 2^128)',
+                  'request validation (rhp/v4/validation.go) appears only through these hypotheses; signatures and price-table expiry are outside the model',
+                  'rhp/v2 and rhp/v3 host payout arithmetic (CalculateHostPayouts, RenewalCosts) is covered by the Go-side equation oracle and the tax inversion theorem, not modelled field by field'],
+  'level_text': 'Proved for every reachable contract (missed <= total collateral <= host value) and all parameters: PayWithContract keeps the total, charges the renter exactly RenterCost, risks exactly RiskedCollateral, never raises the missed host value, leaves total collateral alone, and with a computable cost never panics: it refuses exactly when funds or collateral do not suffice; each revision constructor\'s result, once signed, passes every numeric consensus revision rule (validate_revision reduces to the signature check under the current keys); over every history of revision requests value is conserved and the revision number cannot wrap before 2^64 requests; NewContract passes the contract rules and ContractCost funds contract + tax + fee exactly; RenewContract / RefreshPartial / RefreshFull split the old value exactly into final outputs and rollover, never roll over more than the new contract costs, pass every numeric renewal rule, and RenewalCost / RefreshCost never underflow and satisfy renter + host + rollover = new contract + tax + fee; taxAdjustedPayout inverts the v1 tax equation for every target. Tied to rhp/v4 by recomputing every constructor call of generated sequences and to consensus by end-to-end chains.',
+}
+
 NOT_YET = {}
